@@ -240,6 +240,28 @@ func verifC07Inbound() {
 			known = r
 		}
 	}
+	// the agent may be unable to vouch for the source right now: its loop is
+	// closed, or the local candidate is being torn down (its context is done
+	// while the receive loop still runs — inside Restart or Close). A datagram
+	// the agent did not vouch for is dropped, whoever sent it; only a source the
+	// candidate's own cache already holds needs no agent.
+	switch verifChoice(3) {
+	case 1:
+		verifReach("loop-closed")
+		a.loop.Close()
+		// (a cached source on a closed agent: Conn.Read reports the closed
+		// error whatever is buffered — C08's matter, not looked at here)
+		verifAssume(!(cached && known == Candidate(w.remotes[1])))
+		known = nil
+	case 2:
+		verifReach("candidate-closing")
+		lb := verifBaseOf(local)
+		lb.closeCh, lb.closedCh = make(chan struct{}), make(chan struct{})
+		close(lb.closeCh)
+		if !(cached && known == Candidate(w.remotes[1])) {
+			known = nil
+		}
+	}
 	// every remote has been silent for an hour: received data is what ends the
 	// silence (liveness of the pair is judged on LastReceived)
 	for _, r := range w.remotes {
